@@ -364,4 +364,50 @@ reorder_header(const std::vector<std::string>& lines, vh::Rng& rng, std::string&
   return out;
 }
 
+// the directed re-orderings: every count key moved behind all size-giving lines / in front of them, every two count keys swapped
+static std::vector<std::pair<std::string, std::vector<std::string>>>
+directed_reorders(const std::vector<std::string>& lines)
+{
+  std::vector<std::pair<std::string, std::vector<std::string>>> out;
+  std::vector<int> movable, counts;
+  for (std::size_t k = 1; k + 1 < lines.size(); ++k)
+    {
+      const std::string key = std_key_of(lines[k]);
+      if (is_size_giving_key(key))
+        movable.push_back(static_cast<int>(k));
+      if (is_count_key(key))
+        counts.push_back(static_cast<int>(k));
+    }
+  if (movable.size() < 2)
+    return out;
+  const int first = movable.front(), last = movable.back();
+  for (int c : counts)
+    {
+      if (c != last)
+        {
+          std::vector<std::string> l = lines;
+          const std::string x = l[c];
+          l.erase(l.begin() + c);
+          l.insert(l.begin() + last, x);
+          out.push_back(std::make_pair("'" + std_key_of(lines[c]) + "' moved behind all size-giving lines", l));
+        }
+      if (c != first)
+        {
+          std::vector<std::string> l = lines;
+          const std::string x = l[c];
+          l.erase(l.begin() + c);
+          l.insert(l.begin() + first, x);
+          out.push_back(std::make_pair("'" + std_key_of(lines[c]) + "' moved in front of all size-giving lines", l));
+        }
+    }
+  for (std::size_t a = 0; a < counts.size(); ++a)
+    for (std::size_t b = a + 1; b < counts.size(); ++b)
+      {
+        std::vector<std::string> l = lines;
+        std::swap(l[counts[a]], l[counts[b]]);
+        out.push_back(std::make_pair("'" + std_key_of(lines[counts[a]]) + "' and '" + std_key_of(lines[counts[b]]) + "' swapped", l));
+      }
+  return out;
+}
+
 } // namespace c17
